@@ -23,7 +23,7 @@ func init() {
 		ID:      "C16",
 		Level:   "exploration",
 		Workers: 16,
-		Rule: "request mutation over the real service: valid requests captured from correct clients in all states (due-to-create, due-to-subscribe, subscribed with and without pending operations) are mutated in one to three fields - unknown / foreign / empty / swapped DUID, unknown or empty key, wrong type, every combination of the seven option bits (read-only with and without operations, snapshot, delete, unsubscribe, error), checkpoints stale / future / huge / zero / absent, absent header, operations without id, operation lists with gaps, repeats, reordering, foreign client id, other era, emptied, 500 operations; unregistered / foreign-collection / administrative / empty client id, unknown / other / empty collection, no packs, duplicated packs - plus correct requests with a panic injected inside their handler's goroutine between lock acquisition and commit (hook pp.before-commit: the recovery path must answer, keep the process alive and release the key; also for ONE of the two handlers of a two-pack message, which must still be answered with both packs), plus ClientMessage, PatchMessage (invalid JSON, non-object JSON, key of another type, unknown collection), CollectionMessage and EncodingMessage (no operation, unknown operation type, undecodable body, missing id) variants. Monitors: every call is answered (watchdog classification: a handler that ended without replying is a hang; a call that returns neither a response nor an error is not an answer), a server panic is a violation, refused (RPC error or error-bit pack) => store diff empty (volatile timestamps ignored); after every hostile request a canary client syncs the same key and another key and must be answered; after an ACCEPTED hostile request the stored log must still satisfy the structural invariants of C06 (gapless up to the recorded end, nobody acknowledged beyond what is stored). One case in five ends with valid requests that are unusual only in size or repetition: one message of a correct client with 17-60 packs (creations, then a push on every datatype) must be answered pack for pack, the same client registers 40 more times, an existing collection is created 20 more times. One case in 150 runs the repository's server binary as a child process: a push-pull is held at a database write, the process receives SIGTERM (graceful stop waits for the held request) and a REST request arriving meanwhile must be answered while the shutdown is pending. Client half: every error pack the server produced in the run and the five defined push-pull error codes are applied to a subscribed client: its error handler must be called, nothing may panic, and it must complete a normal sync of another datatype afterwards; every third case also runs the client half through the SDK's own sync path (Client.Sync() over real grpc): a lost response, a request refused at the RPC level and an error pack for one of two datatypes, in random order - after each the next Sync() must return (watchdog classification: waiting for the client's sync semaphore while no sync is under way is a hang) and succeed, the error pack must reach an error handler, and every issued operation ends up stored exactly once; " +
+		Rule: "request mutation over the real service: valid requests captured from correct clients in all states (due-to-create, due-to-subscribe, subscribed with and without pending operations) are mutated in one to three fields - unknown / foreign / empty / swapped DUID, unknown or empty key, names (unknown key, collection, client alias, key of a patch, name of a new collection) outside ASCII and longer than the server's log tags, wrong type, every combination of the seven option bits (read-only with and without operations, snapshot, delete, unsubscribe, error), checkpoints stale / future / huge / zero / absent, absent header, operations without id, operation lists with gaps, repeats, reordering, foreign client id, other era, emptied, 500 operations; unregistered / foreign-collection / administrative / empty client id, unknown / other / empty collection, no packs, duplicated packs - plus correct requests with a panic injected inside their handler's goroutine between lock acquisition and commit (hook pp.before-commit: the recovery path must answer, keep the process alive and release the key; also for ONE of the two handlers of a two-pack message, which must still be answered with both packs), plus ClientMessage, PatchMessage (invalid JSON, non-object JSON, key of another type, unknown collection), CollectionMessage and EncodingMessage (no operation, unknown operation type, undecodable body, missing id) variants. Monitors: every call is answered (watchdog classification: a handler that ended without replying is a hang; a call that returns neither a response nor an error is not an answer), a server panic is a violation, refused (RPC error or error-bit pack) => store diff empty (volatile timestamps ignored); after every hostile request a canary client syncs the same key and another key and must be answered; after an ACCEPTED hostile request the stored log must still satisfy the structural invariants of C06 (gapless up to the recorded end, nobody acknowledged beyond what is stored). One case in five ends with valid requests that are unusual only in size or repetition: one message of a correct client with 17-60 packs (creations, then a push on every datatype) must be answered pack for pack, the same client registers 40 more times, an existing collection is created 20 more times. One case in 150 runs the repository's server binary as a child process: a push-pull is held at a database write, the process receives SIGTERM (graceful stop waits for the held request) and a REST request arriving meanwhile must be answered while the shutdown is pending. Client half: every error pack the server produced in the run and the five defined push-pull error codes are applied to a subscribed client: its error handler must be called, nothing may panic, and it must complete a normal sync of another datatype afterwards; every third case also runs the client half through the SDK's own sync path (Client.Sync() over real grpc): a lost response, a request refused at the RPC level and an error pack for one of two datatypes, in random order - after each the next Sync() must return (watchdog classification: waiting for the client's sync semaphore while no sync is under way is a hang) and succeed, the error pack must reach an error handler, and every issued operation ends up stored exactly once; " +
 			"non-trivial = the request differs from any request a correct client could send (every mutated request); distinct = hash of the mutation script",
 		Assumptions: []string{
 			"only 'answered / not answered / crashed' and 'refused => unchanged' are verdicts; whatever a canary notices after an ACCEPTED hostile request (error pack, client-side panic) is recorded as a diagnostic",
@@ -62,6 +62,10 @@ type c16world struct {
 	// the process (a lock that is never released) stays with the case that caused it
 	k0, k9, kb string
 }
+
+// c16WideName is a well-formed name (key, alias, collection) outside ASCII: every character
+// takes three or four bytes, and it is longer than the short tags the server derives from names.
+const c16WideName = "名前はここに書きます🙂キー"
 
 // mutate applies 1-3 mutations to a request; returns a description.
 func (x *c16world) mutate(req *model.PushPullMessage) string {
@@ -118,6 +122,10 @@ func (x *c16world) mutate(req *model.PushPullMessage) string {
 			desc = append(desc, "duid=of-another-key")
 		case 4:
 			p.Key = "nokey" + randUID(r)[:4]
+			if r.Intn(2) == 0 {
+				// names are free text: one outside ASCII, longer than the tags the server logs
+				p.Key = c16WideName + randUID(r)[:4]
+			}
 			desc = append(desc, "key=unknown")
 		case 5:
 			p.Key = ""
@@ -250,7 +258,7 @@ func (x *c16world) mutate(req *model.PushPullMessage) string {
 			req.Cuid = ""
 			desc = append(desc, "cuid=empty")
 		case 26:
-			req.Collection = []string{"nocol", "colB", ""}[r.Intn(3)]
+			req.Collection = []string{"nocol", "colB", "", c16WideName}[r.Intn(4)]
 			desc = append(desc, "collection="+req.Collection)
 		case 27:
 			if req.Header != nil {
@@ -594,8 +602,10 @@ func runC16(c *core.Case) *core.Result {
 			}
 		case kind == 7:
 			msg := model.NewClientMessage(proto.Clone(c1.Model).(*model.Client))
-			variant := r.Intn(5)
+			variant := r.Intn(6)
 			switch variant {
+			case 5:
+				msg.ClientAlias = c16WideName + "の別名"
 			case 0:
 				msg.Collection = "nocol"
 			case 1:
@@ -623,8 +633,10 @@ func runC16(c *core.Case) *core.Result {
 			}
 		case kind == 8:
 			pm := &model.PatchMessage{Collection: "colA", Key: x.k0, Json: `{"a":1}`}
-			variant := r.Intn(6)
+			variant := r.Intn(7)
 			switch variant {
+			case 6:
+				pm.Key = c16WideName + randUID(r)[:4] // a new document under a name outside ASCII
 			case 0:
 				pm.Json = "{"
 			case 1:
@@ -653,7 +665,7 @@ func runC16(c *core.Case) *core.Result {
 				return res
 			}
 		default:
-			name := []string{"", "col/with/slash", "colA", strings.Repeat("c", 300)}[r.Intn(4)]
+			name := []string{"", "col/with/slash", "colA", strings.Repeat("c", 300), c16WideName + "コレクション"}[r.Intn(5)]
 			c.Step("hostile collection message %q", clip(name, 30))
 			before := x.snap()
 			answered := false
